@@ -476,4 +476,25 @@ pub open spec fn full_rank_at(s: Seq<real>, eps: real) -> bool { forall |i:int| 
 /// what the code computes per Jacobian column:  U (U^T X) - X   with X = (W D_k) C
 pub open spec fn kaufman_col(u: MatR, dwc: MatR) -> MatR { msub(mmul(u, mmul(mtr(u), dwc)), dwc) }
 
+pub open spec fn row_m(a: MatR, i0: int) -> MatR { mat_new(1, a.c, |i:int,j:int| a.get(i0,j)) }
+/// the matrix whose columns are the given sequences
+pub open spec fn from_cols(r: nat, cols: Seq<Seq<real>>) -> MatR { MatR { r, c: cols.len(), e: cols } }
+
+pub proof fn lemma_col_e0(a: MatR, j: int)
+  requires a.wf(), 0 <= j < a.c
+  ensures col(a, j).e[0] == a.e[j], col(a, j).wf(), col(a, j).r == a.r, col(a, j).c == 1
+{
+  assert(col(a, j).e[0] =~= a.e[j]);
+}
+pub proof fn lemma_hcat_cols(a: MatR, b: MatR)
+  requires a.wf(), b.wf(), a.r == b.r
+  ensures hcat(a, b).wf(), hcat(a, b).r == a.r, hcat(a, b).c == a.c + b.c,
+    forall |j: int| 0 <= j < a.c ==> #[trigger] hcat(a, b).e[j] == a.e[j],
+    forall |j: int| a.c <= j < a.c + b.c ==> #[trigger] hcat(a, b).e[j] == b.e[j - a.c],
+{
+  let h = hcat(a, b);
+  assert forall |j: int| 0 <= j < a.c implies #[trigger] h.e[j] == a.e[j] by { assert(h.e[j] =~= a.e[j]); }
+  assert forall |j: int| a.c <= j < a.c + b.c implies #[trigger] h.e[j] == b.e[j - a.c] by { assert(h.e[j] =~= b.e[j - a.c]); }
+}
+
 } // verus!
